@@ -539,6 +539,9 @@ def f_binary_intr(name, a, b, w):
     if name == "pow":
         if w not in (32, 64):
             raise Excluded("unspecified:libm-f16")
+        if f_is_snan(a, w) or f_is_snan(b, w):
+            # libm: pow(sNaN, 0) / pow(1, sNaN) are NaN (invalid) while pow(qNaN, 0) = pow(1, qNaN) = 1
+            raise Excluded("unspecified:pow-snan")
         if a == NANY or b == NANY:
             # pow(1, NaN) = 1 and pow(NaN, 0) = 1: need the real bits; an abstract NaN is still a NaN
             x = math.nan if a == NANY else to_py(a, w)
